@@ -56,7 +56,7 @@ class Transits(ModelFeature):
             else:
                 rhs_depot = set(other.depot)
 
-            return (set(self.counts) == set(other.counts), lhs_depot == rhs_depot)
+            return set(self.counts) == set(other.counts) and lhs_depot == rhs_depot
         else:
             return False
 
